@@ -43,6 +43,12 @@ def build_groups(ctx: Ctx):
             cases += [(p, rng.choice(rt.METHODS), rt.NOQ) for p in paths[:10]]
             groups.append((rt.make_cfg(rules, s, m), True, cases))
     groups += lenient_405_groups(ctx, rng)
+    # (d) fixed slice: the same converter with the same keyword names and different values in one map
+    same = rt.same_converter_groups()
+    ctx.notes["same_converter_maps"] = len(same)
+    for n, (rules, paths) in enumerate(same):
+        s_, m_ = settings()[n % 4]
+        groups.append((rt.make_cfg(rules, s_, m_), True, [(p, "GET", rt.NOQ) for p in paths]))
     # (c) the method written in lower / mixed case through match(method=), dispatch(method=), bind(default_method=):
     #     the outcome is that of the upper-case method
     U2 = [r for r in U if r["methods"]] + [dict(r, methods=["GET", "POST"]) for r in U[7:12]]
